@@ -15,7 +15,7 @@ package peer
 //@ contract internal/peer.(*peerCommand).unmarshal props C18,C28
 //@   requires p != nil
 //@   ensures[round-trip] forall a string, ad string, i string :: (a == "R" || a == "U") && !strings.Contains(ad, ",") && msg == a + ad + "," + i ==> result && string(p.action) == a && p.address == ad && p.id == i
-//@   finding F-C18-1 ensures[round-trip-any-address] forall a string, ad string, i string :: (a == "R" || a == "U") && msg == a + ad + "," + i ==> result && string(p.action) == a && p.address == ad && p.id == i
+//@   finding F-C18-1 ensures[round-trip-any-address@C18] forall a string, ad string, i string :: (a == "R" || a == "U") && msg == a + ad + "," + i ==> result && string(p.action) == a && p.address == ad && p.id == i
 //@   ensures[rejects-other-actions] result ==> (string(p.action) == "R" || string(p.action) == "U")
 //@   ensures[decoded-parts-reassemble] result ==> msg == string(p.action) + p.address + "," + p.id && !strings.Contains(p.address, ",")
 //@   modifies p.action, p.address, p.id
